@@ -55,6 +55,10 @@ pub struct PartySpec {
     /// getenv for.
     #[serde(default)]
     pub env_flip: Vec<String>,
+    /// "nodebug": this process party runs a build of the library without debug assertions and
+    /// overflow checks (the way `cargo build --release` compiles it)
+    #[serde(default)]
+    pub build: Option<String>,
 }
 
 #[derive(Clone, Debug, Serialize, Deserialize)]
@@ -211,7 +215,13 @@ pub fn take_discovered_env() -> Vec<String> {
 /// takes the keys from the seam and runs the steps.
 fn run_process_party(prog: &ProgSpec, party: &PartySpec) -> Result<Vec<(Outcome, Vec<ProbeRec>)>, String> {
     use std::io::Write;
-    let exe = std::env::current_exe().map_err(|e| e.to_string())?;
+    let exe = match party.build.as_deref() {
+        Some("nodebug") => match std::env::var("VERIF_NODEBUG_BIN") {
+            Ok(p) if std::path::Path::new(&p).exists() => std::path::PathBuf::from(p),
+            _ => return Err("no nodebug build available (not a thorough run through ./check)".into()),
+        },
+        _ => std::env::current_exe().map_err(|e| e.to_string())?,
+    };
     let single = World { program: prog.clone(), parties: vec![PartySpec { process: false, ..party.clone() }], concurrent: None };
     let pressure = party.alloc_limit.is_some();
     let mut child = std::process::Command::new(&exe)
@@ -273,6 +283,9 @@ pub fn judge(w: &World, r: &WorldResult) -> (Vec<Finding>, BTreeMap<String, u64>
                 if party.alloc_limit.is_some() {
                     *counters.entry("memory_pressure_party_completed".into()).or_insert(0) += 1;
                 }
+                if party.build.is_some() {
+                    *counters.entry("nodebug_build_party_completed".into()).or_insert(0) += 1;
+                }
                 for (si, (s, (o, _))) in party.steps.iter().zip(outs.iter()).enumerate() {
                     if s.mode == Mode::Warm {
                         *counters.entry("warm_compilations".into()).or_insert(0) += 1;
@@ -286,7 +299,18 @@ pub fn judge(w: &World, r: &WorldResult) -> (Vec<Finding>, BTreeMap<String, u64>
                 }
             }
             Err(e) => {
-                *counters.entry(if e.contains("memory pressure") { "process_party_died_under_memory_pressure" } else { "party_failed" }.to_string()).or_insert(0) += 1;
+                *counters
+                    .entry(
+                        if e.contains("memory pressure") {
+                            "process_party_died_under_memory_pressure"
+                        } else if e.contains("nodebug") {
+                            "nodebug_party_unavailable"
+                        } else {
+                            "party_failed"
+                        }
+                        .to_string(),
+                    )
+                    .or_insert(0) += 1;
             }
         }
     }
@@ -363,13 +387,15 @@ pub struct Plan {
     pub corpus: Vec<CorpusEntry>,
     pub n_corpus: u64,
     pub tier: Tier,
+    /// thorough tier: every case also has a process party running the no-debug-assertions build
+    pub nodebug_parties: bool,
 }
 
 impl Plan {
     pub fn load(t: &str) -> Result<Plan, String> {
         let corpus = load_corpus()?;
         let n = corpus.len() as u64;
-        Ok(Plan { corpus, n_corpus: n, tier: tier(t) })
+        Ok(Plan { corpus, n_corpus: n, tier: tier(t), nodebug_parties: t == "thorough" })
     }
     pub fn n_cases(&self) -> u64 {
         self.n_corpus + self.tier.generated + self.tier.ill_typed + self.tier.big + self.tier.concurrent + self.tier.huge
@@ -416,7 +442,7 @@ fn draw_party(p: &mut Prng, fns: &[String], nconsts: usize, light: bool) -> Part
             Step { fn_name: f, opts: o, mode, perm, cap, warm_src: None }
         })
         .collect();
-    PartySpec { keys, steps, process: false, alloc_limit: None, env_flip: vec![] }
+    PartySpec { keys, steps, process: false, alloc_limit: None, env_flip: vec![], build: None }
 }
 
 const KEYWORDS: &[&str] = &[
@@ -578,7 +604,7 @@ pub fn make_world(plan: &Plan, seed: u64, idx: u64) -> (World, String, Prng) {
         // one cold process party, nothing else
         let keys = Keys { k0: p.next_u64(), k1: p.next_u64(), drift: 0 };
         let target = simple_step(&fns[0], Opts { register: false, dedup: true });
-        parties.push(PartySpec { keys, steps: vec![target], process: true, alloc_limit: None, env_flip: vec![] });
+        parties.push(PartySpec { keys, steps: vec![target], process: true, alloc_limit: None, env_flip: vec![], build: None });
     } else if family != "ill_typed" && !light {
         let keys = Keys { k0: p.next_u64(), k1: p.next_u64(), drift: 0 };
         let o = *p.pick(&Opts::all());
@@ -590,8 +616,12 @@ pub fn make_world(plan: &Plan, seed: u64, idx: u64) -> (World, String, Prng) {
             warm.push(warm_step(gen::program(&mut p)));
         }
         warm.push(target.clone());
-        parties.push(PartySpec { keys, steps: vec![target.clone()], process: true, alloc_limit: None, env_flip: vec![] });
-        parties.push(PartySpec { keys, steps: warm, process: true, alloc_limit: None, env_flip: vec![] });
+        parties.push(PartySpec { keys, steps: vec![target.clone()], process: true, alloc_limit: None, env_flip: vec![], build: None });
+        if plan.nodebug_parties {
+            // the cold party's twin, running a release-style build of the library
+            parties.push(PartySpec { keys, steps: vec![target.clone()], process: true, alloc_limit: None, env_flip: vec![], build: Some("nodebug".into()) });
+        }
+        parties.push(PartySpec { keys, steps: warm, process: true, alloc_limit: None, env_flip: vec![], build: None });
         // further processes with the same keys, under memory pressure: single allocations above
         // the limit fail. For large programs the limits 1..16 MiB are all tried: between the point
         // where a hash table can no longer grow and the point where the gate vector can no longer
@@ -614,15 +644,15 @@ pub fn make_world(plan: &Plan, seed: u64, idx: u64) -> (World, String, Prng) {
                 }
             }
             hist.push(target.clone());
-            parties.push(PartySpec { keys, steps: hist, process: true, alloc_limit: None, env_flip: vec![] });
+            parties.push(PartySpec { keys, steps: hist, process: true, alloc_limit: None, env_flip: vec![], build: None });
         }
         if family == "big" {
             for lim in [1usize << 20, 2 << 20, 4 << 20, 8 << 20, 16 << 20] {
-                parties.push(PartySpec { keys, steps: vec![target.clone()], process: true, alloc_limit: Some(lim), env_flip: vec![] });
+                parties.push(PartySpec { keys, steps: vec![target.clone()], process: true, alloc_limit: Some(lim), env_flip: vec![], build: None });
             }
         } else if p.chance(1, 6) {
             let lim = *p.pick(&[1usize << 20, 2 << 20, 4 << 20, 1 << 16, 1 << 18, 1 << 14]);
-            parties.push(PartySpec { keys, steps: vec![target], process: true, alloc_limit: Some(lim), env_flip: vec![] });
+            parties.push(PartySpec { keys, steps: vec![target], process: true, alloc_limit: Some(lim), env_flip: vec![], build: None });
         }
     }
     (World { program: ProgSpec { name, src, consts }, parties, concurrent }, family.to_string(), p)
@@ -640,6 +670,7 @@ fn probe_parties(p: &mut Prng, n: usize, fn_name: &str, opts: Opts) -> Vec<Party
             process: false,
             alloc_limit: None,
             env_flip: vec![],
+            build: None,
         })
         .collect()
 }
